@@ -12,7 +12,7 @@ func init() {
 	register(&propCheck{
 		id:    "C07",
 		level: "other",
-		explanation: "Static necessary conditions of 'once closed, an archive filesystem serves nothing' and of the structural half of the zip round trip: (V1) every access of the backend (load of VFS.vfs) in package filesystem is dominated by the closed-resource guard and lies on the side where the guard returned nil; (V2) the closed flag and the wrapped closer are only touched under the resource's mutex, writes under the write lock; (V3) the guard answers with the 'failed condition' kind exactly when IsClosed() is true and guarded functions never turn the guard's error into success; (V4) the zip/tar filesystem constructors hand the opened archive file to the filesystem as the resource it closes, and VFS.Close closes it; (V5) Close marks the resource closed on every successful path and IsClosed reports that flag; (Z1) zip entry names are the walk paths relative to the source, directory entries end with '/', entries carry the file's modification time and the content copied is the opened source file's; (Z2) extraction restores times after the copy from the archive entry's info, and directory times after the loop on every successful path. Decided on SSA of the current sources; nothing is executed. Not decided: round-trip equality of trees, contents and times (value-level), behaviour of afero's zipfs/tarfs.",
+		explanation: "Static necessary conditions of 'once closed, an archive filesystem serves nothing' and of the structural half of the zip round trip: (V1) every access of the backend (load of VFS.vfs) in package filesystem is dominated by the closed-resource guard and lies on the side where the guard returned nil; (V2) the closed flag and the wrapped closer are only touched under the resource's mutex, writes under the write lock; (V3) the guard answers with the 'failed condition' kind exactly when IsClosed() is true and guarded functions never turn the guard's error into success; (V4) the zip/tar filesystem constructors hand the opened archive file to the filesystem as the resource it closes, and VFS.Close closes it; (V5) Close marks the resource closed on every successful path and IsClosed reports that flag; (Z1) zip entry names are the walk paths relative to the source, directory entries end with '/', entries carry the file's modification time and the content copied is the opened source file's; (Z2) extraction restores times after the copy from the archive entry's info, and directory times after the loop on every successful path; (Z3) the name joined to the destination on extraction is the entry's own zip.FileHeader.Name, charset transcoding aside; (Z4) every way round the entry loop that creates an entry appends its path, or the paths of the nested extraction, to the list returned. Decided on SSA of the current sources; nothing is executed. Not decided: round-trip equality of trees, contents and times (value-level), behaviour of afero's zipfs/tarfs.",
 		run:   runC07,
 		thoroughConfigs: []string{"darwin/amd64", "windows/amd64"},
 		assumptions: []string{
@@ -50,6 +50,7 @@ func runC07(c *Ctx) {
 	c.rule("V5", "closeableResource.Close sets closed=true before every nil return; IsClosed returns that flag", 2)
 	c.rule("Z1", "zip walker: entry name = filepath.Rel(source, path) (+\"/\" for directories), Modified = info.ModTime(), content = the opened path copied whole into the entry writer", 5)
 	c.rule("Z3", "unzip: the name joined to the destination is the entry's zip.FileHeader.Name itself (charset transcoding aside)", 1)
+	c.rule("Z4", "unzip: every way round the entry loop that creates an entry appends its path (or the paths of the nested extraction) to the list returned, in that same iteration", 2)
 	c.rule("Z2", "unzip: file times restored from the entry's info after the copy; directory infos recorded and restored after the loop before the successful return", 3)
 
 	c.c07Guard()
@@ -59,6 +60,7 @@ func runC07(c *Ctx) {
 	c.c07ZipWalker()
 	c.c07UnzipTimes()
 	c.c07NamesVerbatim()
+	c.c07Listed()
 }
 
 func (c *Ctx) c07Guard() {
@@ -588,6 +590,78 @@ func (c *Ctx) c07NamesVerbatim() {
 	})
 	if n == 0 {
 		c.violate("Z3", fname(f)+"/entry-name-verbatim", c.pos(f.Pos()), "unzip no longer derives the extraction path through sanitiseZipExtractPath")
+	}
+}
+
+// c07Listed (Z4): "the list of extracted paths returned names exactly the entries created" — the half that can be
+// seen in the shape of the loop: nothing is created without being listed (same search as C03/W6, which asks that it
+// be counted).
+func (c *Ctx) c07Listed() {
+	unzip := c.fn(fsPkgRel, "(*VFS).unzip")
+	uzf := c.fn(fsPkgRel, "(*VFS).unzipZippedFile")
+	var extraction *ssa.Call
+	allInstrs(unzip, func(in ssa.Instruction) {
+		if cl, ok := in.(*ssa.Call); ok && staticCallee(&cl.Call) == uzf {
+			extraction = cl
+		}
+	})
+	if extraction == nil {
+		c.fatalf("C07/Z4: unzip no longer calls unzipZippedFile")
+		return
+	}
+	hdr := loopHeaderOf(extraction)
+	if hdr == nil {
+		c.undecided("Z4", fname(unzip)+"/listed", c.ipos(extraction), "cannot determine the entry loop")
+		return
+	}
+	isListAppend := func(in ssa.Instruction) bool {
+		cl, ok := in.(*ssa.Call)
+		if !ok {
+			return false
+		}
+		b, isB := cl.Call.Value.(*ssa.Builtin)
+		if !isB || b.Name() != "append" {
+			return false
+		}
+		sl, isS := cl.Type().Underlying().(*types.Slice)
+		if !isS {
+			return false
+		}
+		bb, isBasic := sl.Elem().Underlying().(*types.Basic)
+		return isBasic && bb.Kind() == types.String
+	}
+	entryPath := resolveValue(extraction.Call.Args[2])
+	type site struct {
+		in   *ssa.Call
+		what string
+	}
+	sites := []site{{extraction, "extracted-file"}}
+	allInstrs(unzip, func(in ssa.Instruction) {
+		name, args, ok := fsMethodCall(in)
+		if ok && (name == "MkDir" || name == "MkDirAll") && len(args) > 0 && resolveValue(args[0]) == entryPath && inLoop(in) {
+			sites = append(sites, site{in.(*ssa.Call), "directory-entry"})
+		}
+	})
+	for _, st := range sites {
+		errs := errResultsOf(st.in)
+		var errV ssa.Value
+		if len(errs) > 0 {
+			errV = errs[0]
+		} else if isErrorType(st.in.Type()) {
+			errV = st.in
+		}
+		prune := func(b *ssa.BasicBlock, k int) bool {
+			if ifi, ok := b.Instrs[len(b.Instrs)-1].(*ssa.If); ok && errV != nil {
+				if x, nilSucc, ok := nilTest(ifi); ok && sameValue(x, errV) {
+					return k != nilSucc
+				}
+			}
+			return false
+		}
+		hit := cyclicPathCorrelated(unzip, hdr, func(i ssa.Instruction) bool { return i == ssa.Instruction(st.in) }, isListAppend,
+			func(i ssa.Instruction) bool { return isReturnOK(unzip, i) }, prune)
+		c.check(hit == nil, "Z4", fname(unzip)+"/listed/"+st.what, c.ipos(st.in), "every iteration that creates this kind of entry lists it (or the nested extraction's paths)",
+			"there is a way round the entry loop that creates this entry without anything having been appended to the list returned: the list does not name every entry created")
 	}
 }
 
